@@ -18,8 +18,43 @@ type ev = threadgroup.VerifEvent
 // tgCases replays, for every thread group that appears in the trace, its projection through the
 // ThreadGroup model.
 func tgCases(name string, events []ev, only map[int]bool, tags []string) []*vh.Case {
+	// A thread group is identified by its address, and an address is reused once a group has been
+	// garbage collected.  `close(tg.closed)` can happen once per object, so a second "stop that
+	// closed the channel" (tg.stop with b = 1) under one address proves a NEW object: the events
+	// after the last Stop-return that precedes it belong to the new incarnation and are replayed
+	// as a case of their own.  (An Add that succeeds after Stop on ONE object has no second
+	// closing stop and is still reported.)
+	incarnation := map[int]int{} // address -> current incarnation
+	{
+		type pos struct{ closes, lastRet int }
+		seen := map[int]*pos{}
+		boundary := map[int][]int{} // address -> Seq after which the next incarnation starts
+		for _, e := range events {
+			if len(e.Kind) < 3 || e.Kind[:3] != "tg." {
+				continue
+			}
+			p := seen[e.A]
+			if p == nil {
+				p = &pos{lastRet: -1}
+				seen[e.A] = p
+			}
+			switch {
+			case e.Kind == "tg.stopped":
+				p.lastRet = e.Seq
+			case e.Kind == "tg.stop" && e.B == 1:
+				p.closes++
+				if p.closes > 1 && p.lastRet >= 0 {
+					boundary[e.A] = append(boundary[e.A], p.lastRet)
+					p.lastRet = -1
+				}
+			}
+		}
+		tgBoundaries = boundary
+	}
+	next := map[int]int{} // address -> index of the next boundary
 	byTG := map[int]*vh.Case{}
 	var order []int
+	var all []*vh.Case
 	for _, e := range events {
 		if len(e.Kind) < 3 || e.Kind[:3] != "tg." {
 			continue
@@ -27,12 +62,18 @@ func tgCases(name string, events []ev, only map[int]bool, tags []string) []*vh.C
 		if only != nil && !only[e.A] {
 			continue
 		}
+		if bs := tgBoundaries[e.A]; next[e.A] < len(bs) && e.Seq > bs[next[e.A]] {
+			next[e.A]++
+			incarnation[e.A]++
+			delete(byTG, e.A) // the events from here on are another object's
+		}
 		c := byTG[e.A]
 		if c == nil {
 			c = &vh.Case{Name: fmt.Sprintf("%s/tg%d", name, len(order)), Model: "conc tg", Nontrivial: true,
 				Tags: append([]string{"trace:tg"}, tags...)}
 			byTG[e.A] = c
 			order = append(order, e.A)
+			all = append(all, c)
 		}
 		switch e.Kind {
 		case "tg.add":
@@ -53,15 +94,14 @@ func tgCases(name string, events []ev, only map[int]bool, tags []string) []*vh.C
 			c.Op("ret", "ok")
 		}
 	}
-	var out []*vh.Case
-	for _, id := range order {
-		c := byTG[id]
+	for _, c := range all {
 		// a trace is non-trivial when work and a stop interleave
 		c.Key = fmt.Sprintf("%s#%d", c.Name, len(c.Ops))
-		out = append(out, c)
 	}
-	return out
+	return all
 }
+
+var tgBoundaries map[int][]int
 
 // capsCase replays the allowConnect / addPeer / removal steps of one syncer through the peer-cap
 // model.
